@@ -1241,6 +1241,9 @@ class Interp:
         if isinstance(e.func, ast.Name) and isinstance(st.env.get(e.func.id), Clo):
             # a local closure: its free variables are the enclosing function's locals at the time of the call
             clo = st.env[e.func.id]
+            import inspect as _insp
+            if "base_env" not in _insp.signature(self.run_function).parameters:
+                return NotImplemented  # a subclass with its own run_function: leave local functions opaque there
             return self.inline_fn(frame.module, clo.fn, None, frame.defcls, True, args, kwargs, st, frame, outer=st.env)
         hit = self.resolve_callee(e, fname, st, frame)
         if hit is None:
@@ -1266,7 +1269,7 @@ class Interp:
         for k, v in kwargs.items():
             bound[k] = v
         sub = Frame(module, fn, selfv.cls if selfv is not None else (frame.cls if outer is not None else None), defcls, frame.depth + 1)
-        traces, fst = self.run_function(sub, bound, st, base_env=outer)
+        traces, fst = self.run_function(sub, bound, st, base_env=outer) if outer is not None else self.run_function(sub, bound, st)
         is_gen = any(isinstance(n, (ast.Yield, ast.YieldFrom)) for n in ast.walk(fn)
                      if not isinstance(n, ast.Lambda))
         if is_gen:
